@@ -170,3 +170,20 @@ fn c13_truncated_last_zones() {
     wit!(n == 734);
     core::mem::forget(r);
 }
+
+/// Quick-tier truncation check: one declared segment, body cut within the first 30 bytes (the
+/// decoder runs out of input after at most 12 azimuth headers) -> error.
+#[kani::proof]
+#[kani::unwind(16)]
+#[kani::stub(alloc::fmt::format, crate::stubs::fmt_format)]
+fn c13_truncated_early() {
+    let mut b = [0u8; 30];
+    b[5] = 1;
+    let n: usize = kani::any();
+    kani::assume(n <= 30);
+    let r = decode_clutter_filter_map(&mut &b[..n]);
+    assert!(r.is_err(), "C13: truncated body must be an error");
+    wit!(n == 30);
+    wit!(n == 0);
+    core::mem::forget(r);
+}
